@@ -48,10 +48,10 @@ Fixpoint ct_stmt (c : chain) (s : stmt) : pass_res * chain :=
   | SRet e => (ct_expr c e, c)
   | SBlock b => (mthread ct_stmt (push c) b, c)
   | SIf cnd t f =>
-      let c1 := push c in
-      match ct_expr c1 (Some cnd) with
-      | POk => match ct_stmt c1 t with
-               | (POk, c2) => match f with Some f' => (fst (ct_stmt c2 f'), c) | None => (POk, c) end
+      (* the condition in the enclosing scope, each branch in a scope of its own *)
+      match ct_expr c (Some cnd) with
+      | POk => match ct_stmt (push c) t with
+               | (POk, _) => match f with Some f' => (fst (ct_stmt (push c) f'), c) | None => (POk, c) end
                | (v, _) => (v, c) end
       | v => (v, c) end
   | SFor init cnd n b =>
@@ -110,7 +110,7 @@ Fixpoint vn_stmt (c : chain) (s : stmt) : pass_res * chain :=
   | SBlock b => (mthread vn_stmt (push c) b, c)
   | SIf _ t f =>
       match vn_stmt (push c) t with
-      | (POk, c2) => match f with Some f' => (fst (vn_stmt c2 f'), c) | None => (POk, c) end
+      | (POk, _) => match f with Some f' => (fst (vn_stmt (push c) f'), c) | None => (POk, c) end
       | (v, _) => (v, c) end
   | SFor init _ _ b =>
       let c1 := push c in
